@@ -11,7 +11,7 @@ From TT Require Import Model.Icmp Proofs.IcmpProofs.
 From TT Require Import Model.Socks5 Proofs.Socks5Proofs.
 From TT Require Model.Http1 Proofs.Http1Proofs.
 From TT Require Model.ClientRandom Proofs.ClientRandomProofs.
-From TT Require Model.Forwarded Proofs.ForwardedProofs.
+From TT Require Model.Forwarded Proofs.ForwardedProofs Generated.ForwardedFacts.
 Import ListNotations.
 Local Open Scope nat_scope.
 
@@ -106,8 +106,35 @@ Proof.
 Qed.
 Print Assumptions forwarded_body_write_is_bounded.
 
-(* the guards the code relies on are still in the source *)
+(* origin response, chunk-size line: whatever the pieces the origin's bytes arrive in and whatever the client accepts, what the sink
+   holds of an undecided chunk-size line stays below the limit the code states (the code's line parser is the library's under that
+   limit: Forwarded.bounded, FWD_CHUNK_PREFIX_AS_MODELLED) *)
+Theorem forwarded_chunk_size_line_is_bounded :
+  forall psize limit,
+    0 < limit ->
+    psize [] = Forwarded.CPartial ->
+    (forall b p z t, psize b = Forwarded.CComplete p z -> psize (b ++ t) = Forwarded.CComplete p z) ->
+    (forall b t, psize b = Forwarded.CError -> psize (b ++ t) = Forwarded.CError) ->
+    (forall b p z, psize b = Forwarded.CComplete p z ->
+       1 <= p <= length b /\ psize (firstn p b) = Forwarded.CComplete p z /\ forall k, k < p -> psize (firstn k b) = Forwarded.CPartial) ->
+    forall segs st accs,
+      ForwardedProofs.good (Forwarded.bounded limit psize) st ->
+      match fst (Forwarded.drive (Forwarded.bounded limit psize) st segs accs []) with
+      | Forwarded.BPrefix buf => length buf < limit
+      | _ => True
+      end.
+Proof.
+  intros psize limit L E S1 S2 S3 segs st accs G.
+  apply (ForwardedProofs.chunk_size_line_buffer_below_limit psize limit); assumption.
+Qed.
+Print Assumptions forwarded_chunk_size_line_is_bounded.
+
+(* the guards the code relies on are still in the source; the origin's response head is kept only while undecided and shorter than
+   the stated bound (the head parser is the library's; the fact pins the two guards and the single place the buffer is written),
+   and both stated bounds are positive and at most 64 KiB *)
 Theorem code_facts :
-  V6_EXT_LENGTH_CHECKED = true /\ FIXED_IP_EXCLUDES_V6_LOOPBACK = true /\ SOCKS_USERPASS_LENGTH_CHECKED = 1%N.
-Proof. repeat split; exact eq_refl. Qed.
+  V6_EXT_LENGTH_CHECKED = true /\ FIXED_IP_EXCLUDES_V6_LOOPBACK = true /\ SOCKS_USERPASS_LENGTH_CHECKED = 1%N
+  /\ ForwardedFacts.FWD_RESPONSE_HEAD_BOUNDED = true /\ ForwardedFacts.FWD_CHUNK_PREFIX_AS_MODELLED = true
+  /\ (0 < ForwardedFacts.FWD_MAX_RESPONSE_HEAD_SIZE <= 65536)%N /\ (0 < ForwardedFacts.FWD_MAX_CHUNK_SIZE_LINE <= 65536)%N.
+Proof. repeat split; try exact eq_refl; intros H; discriminate H. Qed.
 Print Assumptions code_facts.
